@@ -54,7 +54,7 @@ def run_groups(groups, proj=proj_all, stats=None, model=True):
                     if model:
                         lines.append(observe.case_line(cid, esx, rsx, root.keepTabs, inp, mode, entry))
                     recs.append({"id": cid, "g": g, "env": env, "inp": inp, "mode": mode, "entry": entry, "real": real,
-                                 "dumper": d, "root": root})
+                                 "dumper": d, "root": root, "hits": observe.LAST_STATS[0], "misses": observe.LAST_STATS[1]})
     if model:
         out = observe.run_model(lines)
         for r in recs:
